@@ -122,7 +122,7 @@ struct Obj {
 inline const ClassInfo * class_of(const ObjectHeaderBase * o) {
     // by dynamic type name via typeid -> demangled name tail
     const char * tn = typeid(*o).name();   // e.g. N6Vector3BLF10CanMessageE
-    static std::map<std::string, const ClassInfo *> cache;
+    static thread_local std::map<std::string, const ClassInfo *> cache;     // harnesses run sessions on several application threads
     auto it = cache.find(tn);
     if (it != cache.end()) return it->second;
     const ClassInfo * res = nullptr;
